@@ -774,6 +774,31 @@ class Analyzer:
                     self.untracked(toks, p)
                 p += 1
 
+    def cond_alias(self, name, prefix, init, line):
+        """wave 4: a non-const reference / pointer bound to `c ? a : b` may bind to a shared object: what is written through
+        it later is invisible to the footprint analysis, so the binding itself is recorded as an access that cannot be bounded"""
+        if not ("&" in prefix or "&&" in prefix or "*" in prefix) or "const" in prefix:
+            return
+        depth_ = 0
+        cond_at = None
+        for z_, t_ in enumerate(init):
+            if t_.s in OPEN:
+                depth_ += 1
+            elif t_.s in (")", "]", "}"):
+                depth_ -= 1
+            elif t_.s == "?" and depth_ == 0:
+                cond_at = z_
+                break
+        if cond_at is None:
+            return
+        for z_ in range(cond_at + 1, len(init)):
+            t_ = init[z_]
+            if t_.k == "id" and init[z_ - 1].s in ("?", ":", "&", "(") and self.tracked(t_.s) == "shared" \
+                    and (z_ + 1 == len(init) or init[z_ + 1].s in (":", ")", ";")):
+                self.access(t_.s, True, "AOpaque", line=line,
+                            what="reference / pointer %s may bind to shared %s (conditional initialiser)" % (name, t_.s))
+                self.r.accesses[-1]["form"] = ["opaque"]
+
     # ---- iterators / pointers into a shared container (wave 4)
     def note_iter_alias(self, name, rhs, line):
         """`name` (a variable local to the iteration or to the thread) is given a value computed from
@@ -890,6 +915,8 @@ class Analyzer:
                                 self.scan(init, target=(q0, "+=")) if q0 == 0 else self.scan(init)
                             self.locals.add(name)
                             continue
+                if aliasing and init:
+                    self.cond_alias(name, prefix, init, line)
                 self.scan(rest)
                 self.locals.add(name)
                 if init and self.tracked(name) != "shared":
@@ -1562,8 +1589,13 @@ def analyse_file(path, rel, macros, variant):
                 if st[0] == "simple":
                     d = decl_names(st[1])
                     if d is not None:
+                        idx_ = next((q for q, t_ in enumerate(st[1]) if t_.s == d[0][0]), 0)
+                        prefix_ = [t_.s for t_ in st[1][:idx_]]
                         for n, rest in d:
                             an.scan(rest)
+                            init_ = rest[1:] if rest and rest[0].s == "=" else rest
+                            if init_:
+                                an.cond_alias(n, prefix_, init_, st[2])
                         continue
                     ev_before = {k: len(v) for k, v in reg.events.items()}
                     an.stmt(st)
@@ -1809,6 +1841,12 @@ SELF_MUTATIONS = [
     ("include/tapkee/routines/landmarks.hpp", "#pragma omp for nowait", "#pragma omp for collapse(2) nowait"),
     # wave 3: the `parallel` of a region lost (orphaned worksharing loop)
     ("include/tapkee/routines/diffusion_maps.hpp", "#pragma omp parallel\n", "\n"),
+    # wave 4: a block claimed under the lock and filled in place through the iterator after it
+    ("include/tapkee/routines/locally_linear.hpp",
+     "#pragma omp critical\n            {\n                copy(local_triplets.begin(), local_triplets.end(), std::back_inserter(sparse_triplets));\n            }",
+     "SparseTriplets::iterator claimed;\n#pragma omp critical\n            {\n                sparse_triplets.resize(sparse_triplets.size() + "
+     "local_triplets.size());\n                claimed = sparse_triplets.end() - local_triplets.size();\n            }\n"
+     "            copy(local_triplets.begin(), local_triplets.end(), claimed);"),
     # a new conditional region with a reduction in code without any region
     ("include/tapkee/external/barnes_hut_sne/tsne.hpp", "        for (int n = 0; n < N; n++)\n            tree->computeNonEdgeForces(",
      "#pragma omp parallel for reduction(+ : sum_Q) if (N >= 1000)\n        for (int n = 0; n < N; n++)\n            tree->computeNonEdgeForces("),
